@@ -42,6 +42,7 @@ public:
   { 
     delete[] (char*)buffer;
     buffer = 0;
+    _capacity = 0;
     bufferStart = data;
     bufferEnd = data + length;
   }
